@@ -4,6 +4,7 @@
 From Coq Require Import Reals Lra ZArith Bool List.
 From Flocq Require Import Core.Raux.
 From SC Require Import Num Vec3 VecR Kernel KernelProofs Grid Contact Contact_gen ContactProofsB ContactProofsC.
+From SC Require ContactTie.
 Import ListNotations.
 Local Open Scope R_scope.
 
@@ -90,3 +91,11 @@ Print Assumptions within_cutoff_in_box.
 Print Assumptions candidate_complete.
 Print Assumptions candidate_once.
 Print Assumptions grid_equals_all_pairs.
+
+(* THE TIE TO THE SOURCE of the search (ContactTie.v, Narrow_gen.v regenerated from resolve_all_contacts and aabb_intersection_check on
+   every run): the box test (three guarded `return false`; equal to in_box by cases on the six comparisons), which nodes search
+   (used and below the curvature threshold), the voxel they look in (floor((p - min)/size) per axis; the candidate faces are the
+   content of that one voxel), the facing test, and the centre point of a coupled pair. *)
+Theorem search_around_the_narrow_phase_is_what_the_source_says : ContactTie.search_tie.
+Proof. exact ContactTie.search_around_the_narrow_phase_is_what_the_source_says. Qed.
+Print Assumptions search_around_the_narrow_phase_is_what_the_source_says.
